@@ -169,8 +169,8 @@ func LoadKnownFindings(path string) ([]KnownFinding, error) {
 	sc.Buffer(make([]byte, 1<<20), 1<<20)
 	for sc.Scan() {
 		line := strings.TrimSpace(sc.Text())
-		if line == "" || strings.HasPrefix(line, "#") {
-			continue
+		if line == "" || strings.HasPrefix(line, "#") || strings.HasPrefix(line, "fixed:") {
+			continue // "fixed:" lines document repaired defects and suppress nothing
 		}
 		var k KnownFinding
 		if err := json.Unmarshal([]byte(line), &k); err != nil {
